@@ -6,7 +6,7 @@ from harness import poolapi
 
 ID = "C04"
 PROPS = "props/C04.v"
-NEEDS = ["check_exclusion_bounds_overlap", "adjust_exclusion_bounds", "clamp_to_bounds"]
+NEEDS = ["check_exclusion_bounds_overlap", "adjust_exclusion_bounds", "clamp_to_bounds", "max_proposal_age_us", "max_proposal_age_op_us"]
 
 F8 = "F8-equal-priority-report"
 
@@ -170,7 +170,8 @@ class C04Stream(M.MatStream):
 
 
 def streams():
-    return [C04Stream(), poolapi.PoolApiStream()]
+    # calls: both values of must_return_power and the target IN FORCE after every call (re-sent identical proposals)
+    return [C04Stream(), poolapi.PoolApiStream(), M.CallsStream()]
 
 
 META = {
